@@ -231,12 +231,28 @@ func (s *RedundantScope) checkAppendUnique(mkline *MkLine, info *redundantScopeV
 func (s *RedundantScope) handleExpr(mkline *MkLine) {
 	switch {
 	case mkline.IsVarassign():
-		mkline.ForEachUsed(func(expr *MkExpr, time EctxTime) {
-			varname := expr.varname
+		// The operators := and != evaluate the value immediately, which
+		// also reads all variables that are referenced indirectly.
+		eager := mkline.Op() == opAssignEval || mkline.Op() == opAssignShell
+		indirect := make(map[string]bool)
+		var read func(varname string, direct bool)
+		read = func(varname string, direct bool) {
+			if !direct && indirect[varname] {
+				return
+			}
+			indirect[varname] = true
 			info := s.get(varname)
 			info.vari.Read(mkline)
 			info.lastAction = 1
 			s.access(varname)
+			if eager {
+				for _, ref := range info.vari.Refs() {
+					read(ref, false)
+				}
+			}
+		}
+		mkline.ForEachUsed(func(expr *MkExpr, time EctxTime) {
+			read(expr.varname, true)
 		})
 
 	case mkline.IsDirective():
